@@ -16,7 +16,10 @@ func Run(cfg hx.Config) error {
 		return err
 	}
 	rnd := hx.NewRand(cfg.Seed)
-	r.Rule = "pure layer: generated per-layer artifacts (0-12 layers; install/upgrade/remove evolutions, shared ids across databases, duplicate digests, repositories, whiteout files) through the real coalescers, MergeSR, whiteout.Resolver, IndexRecords; non-trivial = more than one layer / more than one ecosystem / fileIsDeleted true"
+	r.Rule = "(1) pure layer: generated per-layer artifacts (0-12 layers; install/upgrade/remove evolutions, ids shared across databases, duplicate digests, repositories, whiteout files) through the real coalescers, MergeSR, whiteout.Resolver, IndexRecords; fileIsDeleted on arbitrary and on clean paths. (2) end to end: layer histories generated from install/upgrade/remove operations on dpkg and apk databases and python/nodejs/ruby/java package files (whiteouts, opaque directories, re-creation, empty, duplicate and unrelated layers) as tars through the real controller and scanners over an in-memory store; compared with the same scanners on the flattened image; every history also abstracted (content ids, scan table) for the Lean model (Tame?, indexModel, scanImage). Non-trivial = more than one layer / ecosystem, fileIsDeleted true, final image with packages."
+	r.Notes["ecosystems_end_to_end"] = "dpkg, alpine(apk), python, java, ruby, nodejs, whiteout; rpm/rhel/rhcc (binary databases, network) and gobin (Go executables) are exercised in the pure layer only"
+	r.Notes["store"] = "private in-memory indexer.Store (go/internal/c01/store.go) with the unique keys of migrations/indexer/01-init.sql; the SQL engine is modelled, not verified"
+	r.Notes["strictness"] = "a history inside the hypothesis Tame (evaluated by the Go transcription of tameB, itself compared with the Lean evaluation on every e2e line) may show no difference at all; outside it a difference is classified only when it has exactly the shape of a recorded finding"
 	runPure(r, cfg, rnd.Fork())
 	runE2E(r, cfg, rnd.Fork())
 	return r.Close()
